@@ -103,9 +103,8 @@ impl UnsafeProtocolChainConfig {
             && self
                 .ibc_channel_id
                 .strip_prefix("channel-")
-                .unwrap()
-                .parse::<u64>()
-                .is_ok();
+                .map(|n| n.chars().all(|c| c.is_ascii_digit()) && n.parse::<u64>().is_ok())
+                .unwrap_or(false);
         if !channel_id_correct {
             return Err(ContractError::IbcChannelConfigWrong {});
         }
